@@ -164,7 +164,7 @@ func C08(c *fw.Ctx) {
 		ext = []tokSym{{"IDENT", "a"}, {"NUMBER", "1"}, {"LEFT_BRACE", "{"}}
 	}
 	c.Bound("dead_leaf_extension_symbols", len(ext))
-	v, d, o := walkTokens(c, fullAlphabet(), fullLen, func(tc tokCase) { visitC08(c, tc, len(tc.Syms) <= 3) })
+	v, d, o := walkTokensExt(c, fullAlphabet(), fullLen, []tokSym{}, func(tc tokCase) { visitC08(c, tc, len(tc.Syms) <= 3) })
 	c.Add("full_viable_prefixes", v)
 	c.Add("full_dead_extensions", d)
 	c.Add("full_out_of_domain", o)
